@@ -376,11 +376,20 @@ PROPS["C17"] = dict(
          "half-close, oversized frame, or a burst of 400 connect/disconnects (event bus capacity is 256); afterwards the socket's API must "
          "answer and a new honest peer must be served. (inproc) a connector of an incompatible type is refused and the binder must still serve a "
          "compatible one. (reconnect) a raw listener accepts and drops: gaps between the PUSH's connect attempts must be >= IVL, <= IVL_MAX + "
-         "slack, grow at most 2x + slack; then a real PULL takes the port and traffic must resume. distinct = scenario.",
+         "slack, grow at most 2x + slack; then a real PULL takes the port and traffic must resume. (refused) nobody listens on the target, so every "
+         "connect() is refused and the connecter's own retry loop paces the attempts: the interval each ConnectRetried monitor event announces "
+         "and the wall-clock gaps between the events, for (IVL, IVL_MAX) in {(100,0),(100,250),(100,1000),(50,400),(200,200),(300,700)(,(10,35),"
+         "(100,150),(250,2000))}: never above IVL_MAX (+150 ms on the clock), never below IVL, growth <= 2x, constant when IVL_MAX=0; then a "
+         "PULL binds the port and traffic must start. (churn) a bound PULL with a healthy PUSH peer from another context carrying sequenced "
+         "traffic while OTHER sockets of the PULL's context are created, bound / connected to a dead port, and closed in a loop (back to back, or "
+         "every 5 / 20 ms) for 3 (6) s with get_option() on the PULL every 0 / 200 us / 5 ms: its API must answer, the healthy connection must "
+         "stay up with a complete stream, a new peer must be served. distinct = scenario.",
     assumptions=["reconnect slack 350 ms (the passive reconnect runs on a 100 ms maintenance tick)"],
     shards=lambda tier, seed: [dict(bin="c17", args=["--only", "arith"], timeout=120, name="c17-arith")]
     + sharded("c17", _n(tier, 8, 16), _n(tier, 300, 1200))
-    + sharded("c17", 4, 300, extra=["--only", "reconnect"], name="c17-reconnect"),
+    + sharded("c17", 4, 300, extra=["--only", "reconnect"], name="c17-reconnect")
+    + sharded("c17", _n(tier, 6, 9), 300, extra=["--only", "refused"], name="c17-refused")
+    + sharded("c17", _n(tier, 4, 6), _n(tier, 300, 900), extra=["--only", "churn"], name="c17-churn"),
     max_parallel=10,
     min_evaluations={"quick": 1000, "thorough": 1500},
 )
